@@ -140,6 +140,16 @@ def do_source(rec, hub, U, all_letters, la, regimes, rng, tier):
                         rec.violation("cast-sum-back", "sum-back-differs-from-original-times-count", {"source": la, "target": t, "n_added": n_added})
             except Exception:
                 pass
+        # a target that lacks a source LETTER but holds another dimension with the same NAME is still not a superset
+        if la:
+            l0 = la[int(rng.integers(0, len(la)))]
+            twin = fd.Dimension(letter=l0.upper(), name=U[l0].name, items=list(U[l0].items))
+            tds = fd.DimensionSet(dim_list=[twin if l == l0 else U[l] for l in la] + [U[l] for l in all_letters if l not in la][:1])
+            for f in (lambda: x.cast_to(tds), lambda: x.cast_values_to(tds)):
+                try:
+                    f()
+                except Exception:
+                    pass
         # non-superset targets must raise
         for t in gen.ordered_subsets(all_letters):
             if la and not set(la) <= set(t) and len(t) <= 2:
